@@ -436,7 +436,7 @@ def warping_paths(s1, s2, psi_neg=True, keep_int_repr=False, **kwargs):
     """
     s = DTWSettings.for_dtw(s1, s2, **kwargs)
     if s.use_c:
-        return warping_paths_fast(s1, s2, psi_neg=psi_neg, **s.kwargs())
+        return warping_paths_fast(s1, s2, psi_neg=psi_neg, keep_int_repr=keep_int_repr, **s.kwargs())
     if np is None:
         raise NumpyException("Numpy is required for the warping_paths method")
     cost, result_fn, ival_fn = innerdistance.inner_dist_fns(s.inner_dist, use_ndim=s.use_ndim)
@@ -952,11 +952,40 @@ def distance_matrix_fast(s, max_dist=None, use_pruning=False, max_length_diff=No
 
 def warping_path(from_s, to_s, include_distance=False, use_ndim=False, **kwargs):
     """Compute warping path between two sequences."""
-    dist, paths = warping_paths(from_s, to_s, use_ndim=use_ndim, **kwargs)
-    path = best_path(paths)
+    kwargs.pop('keep_int_repr', None)
+    kwargs.pop('psi_neg', None)  # the marks are needed to find the relaxed end
+    s = DTWSettings.for_dtw(from_s, to_s, use_ndim=use_ndim, **kwargs)
+    # Trace back on the internal representation: only there the penalty can be taken into account
+    dist, paths = warping_paths(from_s, to_s, use_ndim=use_ndim, keep_int_repr=True, **kwargs)
+    row, col = _relaxed_end(paths, s)
+    path = best_path(paths, row=row, col=col, penalty=s.adj_penalty)
     if include_distance:
-        return path, dist
+        _, result_fn, _ = innerdistance.inner_dist_fns(s.inner_dist, use_ndim=s.use_ndim)
+        return path, result_fn(dist)
     return path
+
+
+def _relaxed_end(paths, s):
+    """Cell where the optimal path ends if the end of a series is relaxed (psi): the cell before
+    the chain of -1 marks in the last column or the last row."""
+    ir, ic = int(paths.shape[0] - 1), int(paths.shape[1] - 1)
+    if ir < 1 or ic < 1 or paths[ir, ic] != -1:
+        return ir, ic
+    _, psi_1e, _, psi_2e = s.split_psi()
+    rr = ir
+    while rr > 0 and paths[rr, ic] == -1:
+        rr -= 1
+    cc = ic
+    while cc > 0 and paths[ir, cc] == -1:
+        cc -= 1
+    if ir - rr > 1 or psi_2e == 0:
+        return rr, ic
+    if ic - cc > 1 or psi_1e == 0:
+        return ir, cc
+    # Only the corner is marked: the smallest of its two neighbours was chosen (last row on ties)
+    if paths[rr, ic] < paths[ir, cc]:
+        return rr, ic
+    return ir, cc
 
 
 def warping_path_fast(from_s, to_s, include_distance=False, **kwargs):
@@ -1070,6 +1099,18 @@ def best_path(paths, row=None, col=None, use_max=False, penalty=0):
         j = int(paths.shape[1] - 1)
     else:
         j = col
+    if row is None and col is None and not use_max and i > 0 and j > 0 and paths[i, j] == -1:
+        # The end was relaxed (psi): skip the chain of -1 marks in the last column or the last row
+        ii = i
+        while ii > 0 and paths[ii, j] == -1:
+            ii -= 1
+        jj = j
+        while jj > 0 and paths[i, jj] == -1:
+            jj -= 1
+        if i - ii > 1 or (j - jj == 1 and paths[ii, j] < paths[i, jj]):
+            i = ii
+        else:
+            j = jj
     p = []
     if paths[i, j] != -1:
         p.append((i - 1, j - 1))
